@@ -297,6 +297,10 @@ void Action::onBlock(const Reason &why, const Trace &trace) {
   if (block_cb_) {
     Trace new_trace(trace);
     new_trace.emplace_back(id_, type_, label_);
+    //! 上一次的阻塞通知若还未派发，则由本次通知取代。否则 block_cb_run_id_ 被覆盖后，
+    //! 旧的通知就无法在 stop(), reset() 或析构时撤消
+    if (block_cb_run_id_ != 0)
+      loop_.cancel(block_cb_run_id_);
     block_cb_run_id_ = loop_.runNext(std::bind(block_cb_, why, new_trace),
                                      std::string("Action::block") + ToString(new_trace));
   }
